@@ -3,7 +3,9 @@
 Theorems: lean/Props/C14.lean about `Model.World` (colour context, strategy registry, caller-owned
 objects and frames, constructed documents; histories of any length); lean/Props/C14memo.lean about keyed
 stores (caches) in general and in the world (`Model.Memo`, `Model.WorldMemo`); lean/Props/C14files.lean about the files
-a figure document reads (`Model.WorldFiles`: histories with file-system events, stores of file contents).
+a figure document reads (`Model.WorldFiles`: histories with file-system events, stores of file contents);
+lean/Props/C14share.lean about when a document holds the caller's own component object (and reads it unchanged after any
+history, whatever section it sits in).
 
 Tie to the code on every run:
   unit level         real `color_service.get_rtf_color_index` / `Utils._get_color_index` /
@@ -51,6 +53,22 @@ a fresh interpreter in the file system AS IT IS WHEN THE TARGET IS ENCODED (the 
 same working directory).  The images embedded by every encode are read off the outputs and compared with what the
 document's paths designate at that moment in the Lean model of the tree (`Model.World.traceF`, op `c14_files`), which also
 says for every history whether a store of image bytes keyed by the path (as spelled / resolved) would have shown in it.
+A SHARED-SECTIONS family per pool (`gen_sharefamily`): three body objects and three column-header objects handed by
+identity to single-section documents AND to multi-section documents of one, two and three sections, each object at every
+section position (alone, only, first, middle, last, first-and-last; headers flat and nested at every section index).  The
+bodies' kinds rotate per round: explicit `col_rel_width` with one entry per column — the document then holds the CALLER'S
+object, no width-resolved copy is made (`Props/C14share.lean`: `C14share_body_by_reference_iff`) —, explicit with styling,
+none, one-element, page_by + new_page; page / title / subline / footnote / source / page header / footer objects of the
+family are shared by its documents at random.  Its histories walk through ALL ordered pairs (earlier document, target) of
+the family's document roles in every run — both orders of every pair, a document after another object of its own
+constructor call, the pairs (multi-section first, single-section target) twice —: whatever an encode leaves behind in an
+object it was given (a per-section flag, a suppressed text, a border) shows in the next document built on that object.
+REFUSED CONSTRUCTIONS per pool (`gen_refused`): documents whose `RTFDocument(...)` call the validator rejects (figure with a
+table-rendered footnote / source, frame and figure together, neither, bodies / nested headers of another length than the
+frames, page_by / group_by / subline_by on a missing column, group_by on a removed column), built on objects that live
+documents use; histories ATTEMPT them (operation `attempt`, exception caught and recorded) between the operations on a live
+document sharing one of the objects — an attempt that is refused must leave every object it was handed as it was (model:
+a step that changes nothing), so the live document's next encode is the fresh interpreter's.
 """
 from __future__ import annotations
 
@@ -103,7 +121,34 @@ RULE = ("pool per round: ≥ 12 document kinds (plain, two coloured palettes, mu
         "changes (the class inside the quantifier); odd-numbered: write in place / atomic replace (same byte length or "
         "not), the same-named file of another directory moved over it, rename away, delete (+ write), touch, chdir; the "
         "target's files exist when it is encoded; reference = fresh interpreters that apply the same events to a new "
-        "tree before constructing the target")
+        "tree before constructing the target. "
+        "Per round also a SHARED-SECTIONS family (appended after the figure-files family, 16 histories per round; thorough "
+        "32): 9 documents over three body objects A, B, C and three header objects — single-A, single-B, the three-section "
+        "documents ABC / BCA / CAB (each body at each section position), AB / BA, the one-element multi-section document "
+        "[A], ACA (one object as first and last section); kinds rotating with round + seed: A explicit full-length "
+        "col_rel_width (4 of 6 rounds; the document holds the caller's object itself) / width-less / one-element, B "
+        "width-less / explicit (3 of 6, once with page_by + new_page) / one-element, C width-less / explicit (once with "
+        "page_by) / one-element / width-less page_by + new_page; "
+        "headers with explicit widths and text, width-less with text, width-less text-less, flat (single, multi) and "
+        "nested at every section index; two page objects (border_first / border_last from single, double, dashed, "
+        "dotted, ''; page_title / page_footnote / page_source from all, first, last; nrow 7-30), title, subline, table- "
+        "and paragraph-rendered footnote and source, page header, page footer shared at random (sometimes the base "
+        "pool's); frames of one column count (3-5) with 1-7 rows, single-B sometimes around another column count; "
+        "histories: the 81 ordered pairs of roles (earlier document, target) + the 14 pairs (multi-section first, "
+        "single-section target) again + 1 random, shuffled once per run and walked through (every pair in every quick "
+        "run), as: encode then construct the target / construct both then encode / encode twice / encode and drop / "
+        "target encoded before AND after the other document; 30 % with one more encode (failing document or another "
+        "member) in front. "
+        "Per round also REFUSED CONSTRUCTIONS (appended last, 8 histories per round; thorough 15): 12-14 documents the "
+        "constructor rejects, built on objects live documents use — figure + table-rendered footnote (of the shared-"
+        "sections family / of the base pool), figure + table-rendered source, frame + figure, neither frame nor figure, "
+        "more / fewer bodies than frames, a bare body for a list of frames, nested headers of another length, page_by / "
+        "group_by / subline_by naming a column the frame lacks (a base-pool body on a two-column frame), group_by on a "
+        "column page_by removes; histories (the refused documents in turn): operation `attempt` (RTFDocument(...) in "
+        "try/except, outcome recorded) once or twice, placed as encode-attempt-encode on one live document, construct-"
+        "attempt-encode, attempt-construct-encode, 20 % with a failing encode in front; the live document shares one of the "
+        "attempt's objects (the body for a refused column / body list, else mostly a text component / page), 70 % a member of the shared-"
+        "sections family; the target's reference is the fresh interpreter that never made the attempt")
 TRUSTED = [
     "Lean 4.33 kernel; axioms ⊆ {propext, Classical.choice, Quot.sound} (audited per theorem on every run)",
     "Lean compiler for the driver executable",
@@ -118,6 +163,8 @@ TRUSTED = [
 ]
 ASSUME = [
     "histories are sequential (concurrency is C15); the user does not assign to component attributes between operations",
+    "the combinations of the refused-constructions family are refused by RTFDocument's validator (checked on every attempt: "
+    "an accepted one is reported as a disagreement with the model, in which an attempt changes nothing)",
     "figure files and the working directory change only through the file-system events the history lists (between "
     "operations, never during a call); the reference for a target is the fresh interpreter in the file system as it is "
     "when the target is encoded; polars, pydantic, Pillow are parameters",
@@ -147,7 +194,14 @@ MANIFEST = dict(
          "that sense for the code (no store) and for every store whose key determines the content, and that a key made of "
          "the path (as spelled: fails without any file changing; resolved: fails on a rewrite, proved harmless while no "
          "file changes) does not; histories with rewritten files are outside the quantifier as written and are counted "
-         "separately in the evidence (input_distribution figfs_history:*, figure_files_failures).",
+         "separately in the evidence (input_distribution figfs_history:*, figure_files_failures). Shared objects: a "
+         "document holds the caller's own body exactly when the body has explicit full-length widths, a header exactly "
+         "when it has widths of its own (Props/C14share); the shared-sections family puts such objects (and copied ones) "
+         "into single- and multi-section documents at every section position and encodes every ordered pair of them "
+         "(input_distribution share_body:* / share_header:* = <place in the earlier document>-><place in the target>). "
+         "Refused constructions: an RTFDocument(...) call the validator rejects is an operation of the histories "
+         "(`attempt`); in the model it is a step that leaves the world alone (nothing is constructed, no object is "
+         "written), the check that the library does refuse the combination is made on the recorded outcome.",
     technique="Lean 4 proof (invariant over reachable worlds, induction over histories) + history-based differential "
               "check against a fresh interpreter",
     design="7/C14",
@@ -676,9 +730,415 @@ def gen_hash_history(rng, pool, labels, j):
     return hist, ("hash-order", tuple(kinds), labels[target], reuse is not None)
 
 
+# ------------------------------------------------------------------ shared-sections family (one object, many places)
+
+# roles of the family's documents: which of the three shared bodies A, B, C sits in which section
+SHARE_ROLES = [("single-A", "single", "A"), ("single-B", "single", "B"),
+               ("multi3-ABC", "multi", "ABC"), ("multi3-BCA", "multi", "BCA"), ("multi3-CAB", "multi", "CAB"),
+               ("multi2-AB", "multi", "AB"), ("multi2-BA", "multi", "BA"),
+               ("multi1-A", "multi", "A"), ("multi3-ACA", "multi", "ACA")]
+SHARE_KINDS_A = ["explicit", "explicit-styled", "widthless", "explicit", "one-element", "explicit-styled"]
+SHARE_KINDS_B = ["widthless", "explicit", "explicit-page_by-new_page", "widthless-styled", "explicit-styled", "one-element"]
+SHARE_KINDS_C = ["widthless", "page_by-new_page", "explicit", "one-element", "widthless-styled", "explicit-page_by"]
+SHARE_MODES = ["encode-then-construct", "construct-both-then-encode", "twice-then-construct", "encode-drop-then-construct",
+               "target-before-and-after"]
+BORDERS = ["single", "double", "dashed", "dotted", ""]
+
+
+def share_pairs(seed):
+    """all ordered pairs of roles (a document with itself included: a second object from the same constructor call),
+    the pairs (multi-section document first, single-section target) a second time — a multi-section encode treats its
+    sections differently by position, a single-section encode sets up nothing per section, so what the former leaves
+    behind in a shared object shows in the latter — in an order drawn once per run: the histories of a run walk through
+    it, so every (earlier document, target) pair of roles occurs in every quick run"""
+    n = len(SHARE_ROLES)
+    pairs = [(a, b) for a in range(n) for b in range(n)]
+    pairs += [(a, b) for a in range(n) for b in range(n) if SHARE_ROLES[a][1] == "multi" and SHARE_ROLES[b][1] == "single"]
+    rng = sub_rng(seed, "c14sharepairs")
+    pairs.append((rng.randrange(n), rng.randrange(n)))
+    rng.shuffle(pairs)
+    return pairs
+
+
+def section_places(dd, cid, what="body"):
+    """where a document holds component `cid`: 'single', 'only' (the one section of a one-element multi-section
+    document), 'first', 'middle', 'last' for bodies and nested headers, 'flat' for a flat header list"""
+    n = len(dd["secs"])
+    def name(i):
+        if dd["kind"] == "single":
+            return "single"
+        return "only" if n == 1 else "first" if i == 0 else "last" if i == n - 1 else "middle"
+    if what == "body":
+        return [name(i) for i, (_, b) in enumerate(dd["secs"]) if b == cid]
+    h = dd["headers"]
+    if h == "default":
+        return []
+    if "flat" in h:
+        return ["flat" + ("" if dd["kind"] == "single" else "-multi")] if cid in h["flat"] else []
+    return [name(i) for i, sec in enumerate(h["nested"]) if cid in sec]
+
+
+def gen_sharefamily(rng, pool, labels, names, turn):
+    """Append to the pool a family of documents built around THREE BODY OBJECTS A, B, C and three column-header objects
+    that are handed, by identity, to single-section documents and to multi-section documents of one, two and three
+    sections, in every section position (`SHARE_ROLES`: A alone, B alone, the Latin square ABC / BCA / CAB, AB / BA, a
+    one-element multi-section document, one object as first and last section).  The bodies' kinds rotate with `turn`
+    (round + run seed): `col_rel_width` explicit with one entry per column (the document then holds the CALLER'S object,
+    no width-resolved copy is made), explicit with styling, absent, one-element (document-owned copies), page_by with
+    new_page (a section that starts a page).  Headers: explicit widths with text, width-less with text, width-less
+    text-less, placed flat and nested at every section index.  Page (border_first / border_last / page_title /
+    page_footnote / page_source drawn), title, subline, table- and paragraph-rendered footnote and source, page header and
+    footer are objects of the family shared by its documents at random (now and then one of the base pool)."""
+    comps, frames, docs = pool["components"], pool["frames"], pool["docs"]
+    by_cls = {}
+    for i, c in enumerate(comps[: pool.get("n_base_comps", len(comps))]):
+        by_cls.setdefault(c["cls"], []).append(i)
+
+    def add(cls, **kw):
+        comps.append(dict(cls=cls, kw=kw))
+        return len(comps) - 1
+
+    k = rng.choice([1, 2, 3])
+    ncol = k + 2
+    fX = len(frames)
+    frames.append(gen_frame(rng, k, rng.randint(2, 7)))
+    frames.append(gen_frame(rng, k, rng.randint(2, 7), numeric=rng.random() < 0.4))
+    frames.append(gen_frame(rng, k, rng.randint(1, 6)))
+    frames.append(gen_frame(rng, rng.choice([x for x in (1, 2, 3, 4) if x != k]), rng.randint(2, 6)))
+    fY, fZ, fOther = fX + 1, fX + 2, fX + 3
+    cs = rng.sample(names, 10)
+
+    def widths():
+        return [rng.choice([1, 1.5, 2, 2.5, 3]) for _ in range(ncol)]
+
+    def styling():
+        o = {}
+        if rng.random() < 0.6:
+            o["text_color"] = rng.choice(cs)
+        if rng.random() < 0.4:
+            o["text_background_color"] = rng.choice(cs)
+        if rng.random() < 0.5:
+            o[rng.choice(["border_first", "border_last", "border_top", "border_bottom"])] = rng.choice(BORDERS[:4])
+        if rng.random() < 0.3:
+            o["border_color_" + rng.choice(["left", "top", "bottom", "first", "last"])] = rng.choice(cs)
+        if rng.random() < 0.3:
+            o["text_font_size"] = rng.choice([8, 9, 10])
+        return o
+
+    def body(kind):
+        if kind == "explicit":
+            return add("RTFBody", col_rel_width=widths())
+        if kind == "explicit-styled":
+            return add("RTFBody", col_rel_width=widths(), **styling())
+        if kind == "widthless":
+            return add("RTFBody")
+        if kind == "widthless-styled":
+            return add("RTFBody", **styling())
+        if kind == "one-element":
+            return add("RTFBody", col_rel_width=[rng.choice([1, 2, 2.5])])
+        if kind == "page_by-new_page":
+            return add("RTFBody", page_by=["g"], new_page=True, pageby_row="first_row")
+        if kind == "explicit-page_by-new_page":
+            return add("RTFBody", col_rel_width=widths(), page_by=["g"], new_page=True,
+                       pageby_row=rng.choice(["first_row", "column"]))
+        if kind == "explicit-page_by":
+            return add("RTFBody", col_rel_width=widths(), page_by=["g"])
+        raise ValueError(kind)
+
+    kinds = dict(A=SHARE_KINDS_A[turn % 6], B=SHARE_KINDS_B[turn % 6], C=SHARE_KINDS_C[turn % 6])
+    bid = {r: body(kinds[r]) for r in "ABC"}
+    hE = add("RTFColumnHeader", text=[f"E{j}" for j in range(ncol)], col_rel_width=widths(),
+             **({"text_color": rng.choice(cs)} if rng.random() < 0.4 else {}))
+    hN = add("RTFColumnHeader", text=[f"N{j}" for j in range(ncol)],
+             **({"text_background_color": rng.choice(cs)} if rng.random() < 0.3 else {}))
+    hT = add("RTFColumnHeader", **({"text_font_size": rng.choice([8, 10])} if rng.random() < 0.5 else {}))
+    pages = [add("RTFPage", nrow=rng.randint(7, 14), border_first=rng.choice(BORDERS), border_last=rng.choice(BORDERS),
+                 page_title=rng.choice(["all", "first", "last"]), page_footnote=rng.choice(["all", "first", "last"]),
+                 page_source=rng.choice(["all", "first", "last"])),
+             add("RTFPage", orientation=rng.choice(["portrait", "landscape"]), nrow=rng.randint(16, 30))]
+    title = add("RTFTitle", text=rng.choice([["Shared title"], ["Shared title", "line two"]]),
+                **({"text_color": rng.choice(cs)} if rng.random() < 0.4 else {}))
+    subl = add("RTFSubline", text="Shared subline")
+    fns = [add("RTFFootnote", text=["shared note", "second shared note"][: rng.randint(1, 2)],
+               **({"border_top": rng.choice(BORDERS[:4])} if rng.random() < 0.3 else {})),
+           add("RTFFootnote", text="shared paragraph note", as_table=False)]
+    srcs = [add("RTFSource", text="Source: shared table", as_table=True), add("RTFSource", text="Source: shared paragraph")]
+    ph = add("RTFPageHeader", **({"text_color": rng.choice(cs)} if rng.random() < 0.3 else {}))
+    pf = add("RTFPageFooter", text="Shared footer")
+    info = dict(members=[], kinds=kinds, bodies=bid, headers=dict(explicit=hE, widthless=hN, textless=hT), ncol=ncol,
+                frames=[fX, fY, fZ, fOther],
+                text=dict(pages=pages, title=title, subline=subl, footnotes=fns, sources=srcs, page_header=ph, page_footer=pf))
+
+    def others():
+        o = {}
+        r = rng.random()
+        if r < 0.75:
+            o["page"] = pages[0] if r < 0.5 else pages[1]
+        if rng.random() < 0.6:
+            o["title"] = title if rng.random() < 0.8 or not by_cls.get("RTFTitle") else rng.choice(by_cls["RTFTitle"])
+        if rng.random() < 0.3:
+            o["subline"] = subl
+        if rng.random() < 0.65:
+            o["footnote"] = rng.choice(fns) if rng.random() < 0.85 or not by_cls.get("RTFFootnote") \
+                else rng.choice(by_cls["RTFFootnote"])
+        if rng.random() < 0.5:
+            o["source"] = rng.choice(srcs)
+        if rng.random() < 0.3:
+            o["page_header"] = ph
+        if rng.random() < 0.3:
+            o["page_footer"] = pf
+        return o
+
+    def plain(sec_role):
+        """may the section carry a header with one text per frame column?"""
+        return "page_by" not in kinds[sec_role]
+
+    lay = [fX, fY, fZ]
+    for i, (label, kind, roles) in enumerate(SHARE_ROLES):
+        secs = [(lay[j] if len(roles) > 1 else (fZ if kind == "multi" else fX), bid[r]) for j, r in enumerate(roles)]
+        texted = [plain(r) for r in roles]
+        if label == "single-B" and kinds["B"] in ("widthless", "widthless-styled", "one-element") and rng.random() < 0.5:
+            secs, texted = [(fOther, bid["B"])], [False]       # the same object around another number of columns
+        if label == "single-A":
+            hdr = rng.choice([dict(flat=[hE]), dict(flat=[hN, hE]), "default"])
+        elif label == "single-B":
+            hdr = rng.choice([dict(flat=[hN]), dict(flat=[hT, hN])]) if texted[0] else rng.choice([dict(flat=[hT]), "default"])
+        elif label.startswith("multi3-"):
+            # each header object at each section index across the Latin square
+            rot = [[hE], [hN], [None]] if label != "multi3-ACA" else [[hN], [hT], [hE]]
+            sh = dict(ABC=0, BCA=1, CAB=2, ACA=0)[roles]
+            nested = [rot[(j - sh) % 3] for j in range(3)]
+            hdr = dict(nested=[[x if (x in (None, hT) or t) else rng.choice([None, hT]) for x in sec]
+                               for sec, t in zip(nested, texted)])
+        elif label == "multi2-AB":
+            hdr = rng.choice([dict(flat=[hE]), "default", dict(flat=[hN])]) if texted[0] else "default"
+        elif label == "multi2-BA":
+            hdr = dict(nested=[[hT], [hN, hE] if texted[1] else [hT]])
+        else:
+            hdr = rng.choice([dict(nested=[[hE]]), "default", dict(nested=[[hT, hN]])]) if texted[0] else "default"
+        d = dict(kind=kind, secs=[list(s) for s in secs], headers=hdr)
+        o = others()
+        for key in ("page", "title", "subline", "footnote", "source", "page_header", "page_footer", "figure"):
+            d[key] = o.get(key)
+        docs.append(d)
+        labels.append(f"share-{label}[A:{kinds['A']},B:{kinds['B']},C:{kinds['C']}]")
+        info["members"].append(len(docs) - 1)
+    pool["sharefamily"] = info
+    return info
+
+
+def gen_share_history(rng, pool, labels, pair):
+    """`pair` = (role of the document encoded first, role of the target): the earlier document is constructed and
+    encoded (once / twice / then dropped / with the target already constructed / with the target encoded before as
+    well), now and then after another operation (a failing encode, another member), then the target is encoded"""
+    info, docs = pool["sharefamily"], pool["docs"]
+    fam = info["members"]
+    X, Y = fam[pair[0]], fam[pair[1]]
+    nd = pool.get("n_base", len(docs))
+    failing = [i for i, l in enumerate(labels[:nd]) if "fail" in l or "IndexError" in l]
+    ops, kinds, slot = [], [], 0
+    if rng.random() < 0.3:
+        did = rng.choice(failing) if rng.random() < 0.5 and failing else rng.choice(fam)
+        ops += [["construct", slot, did], ["encode", slot]]
+        kinds.append("encode:" + labels[did])
+        if rng.random() < 0.5:
+            ops.append(["drop", slot])
+        slot += 1
+    mode = rng.choice(SHARE_MODES)
+    sx, sy = slot, slot + 1
+    reuse = None
+    if mode == "encode-then-construct":
+        ops += [["construct", sx, X], ["encode", sx]]
+    elif mode == "construct-both-then-encode":
+        ops += [["construct", sx, X], ["construct", sy, Y], ["encode", sx]]
+        reuse = sy
+    elif mode == "twice-then-construct":
+        ops += [["construct", sx, X], ["twice", sx]]
+    elif mode == "encode-drop-then-construct":
+        ops += [["construct", sx, X], ["encode", sx], ["drop", sx]]
+    else:
+        ops += [["construct", sy, Y], ["encode", sy], ["construct", sx, X], ["encode", sx]]
+        reuse = sy if rng.random() < 0.6 else None
+    kinds.append(mode + ":" + labels[X])
+    hist = dict(ops=ops, target=Y, reuse=reuse, target_twice=rng.random() < 0.35, share_mode=mode)
+    return hist, ("share", tuple(kinds), labels[Y], reuse is not None)
+
+
+def count_share(res, pool, hist):
+    """evidence labels: which object sits where in the earlier documents and in the target"""
+    info, docs = pool["sharefamily"], pool["docs"]
+    res.count("share_history:" + hist["share_mode"])
+    tgt = docs[hist["target"]]
+    earlier = [docs[o[2]] for o in hist["ops"] if o[0] == "construct" and o[2] in info["members"]
+               and not (o[2] == hist["target"] and hist.get("reuse") == o[1])]
+    for role, cid in info["bodies"].items():
+        kind = info["kinds"][role]
+        cls = ("explicit-widths(document-holds-the-caller's-object)" + ("+page_by" if "page_by" in kind else "")
+               if kind.startswith("explicit") else
+               "one-element-widths" if kind == "one-element" else "no-widths")
+        for e in earlier:
+            for a in section_places(e, cid):
+                for b in section_places(tgt, cid):
+                    res.count(f"share_body:{cls}:{a}->{b}")
+    for hk, cid in info["headers"].items():
+        for e in earlier:
+            for a in section_places(e, cid, "header"):
+                for b in section_places(tgt, cid, "header"):
+                    res.count(f"share_header:{hk}:{a}->{b}")
+    for key in ("page", "title", "subline", "footnote", "source", "page_header", "page_footer"):
+        if tgt.get(key) is not None:
+            for e in earlier:
+                if e.get(key) == tgt[key] and e is not tgt:
+                    res.count(f"share_{key}:{e['kind']}->{tgt['kind']}")
+
+
+# ------------------------------------------------------------------ refused constructions (attempts the library rejects)
+
+REFUSED_MODES = ["encode-attempt-encode", "construct-attempt-encode", "attempt-then-construct"]
+
+
+def gen_refused(rng, pool, labels):
+    """Append to the pool documents whose CONSTRUCTION the library refuses (`RTFDocument(...)` raises in its validator),
+    built on component objects that live documents of the pool use too: a figure with a table-rendered footnote / a
+    table-rendered source, a frame together with a figure, neither a frame nor a figure, more / fewer bodies than
+    frames, a bare body for a list of frames, a nested header list of another length than the frames, page_by /
+    group_by / subline_by naming a column the frame does not have, group_by on a column that page_by removes.  They are
+    never targets; histories ATTEMPT them (operation `attempt`: the exception is caught, the caller's objects stay in
+    use) between the operations on documents that share their components."""
+    comps, frames, docs = pool["components"], pool["frames"], pool["docs"]
+    sh = pool["sharefamily"]
+    nb = pool.get("n_base_comps", len(comps))
+    base = {}
+    for i, c in enumerate(comps[:nb]):
+        base.setdefault(c["cls"], []).append(i)
+    tx = sh["text"]
+    fig = base["RTFFigure"][0]
+    base_tab_fn = [i for i in base.get("RTFFootnote", []) if comps[i]["kw"].get("as_table") is not False]
+    base_par_fn = [i for i in base.get("RTFFootnote", []) if comps[i]["kw"].get("as_table") is False]
+    base_tab_src = [i for i in base.get("RTFSource", []) if comps[i]["kw"].get("as_table")]
+    fX, fY, fZ, _ = sh["frames"]
+    A, B, C = (sh["bodies"][r] for r in "ABC")
+    frames.append(dict(cols=["c0", "c1"], rows=[[f"r{i}c0", f"r{i}c1"] for i in range(rng.randint(2, 5))]))
+    fNoG = len(frames) - 1
+    info = dict(members=[])
+
+    def member(label, kind, secs, headers="default", body_arg=None, **others):
+        d = dict(kind=kind, secs=[list(x) for x in secs], headers=headers)
+        for k in ("page", "title", "subline", "footnote", "source", "page_header", "page_footer", "figure"):
+            d[k] = others.get(k)
+        if body_arg is not None:
+            d["body_arg"] = body_arg
+        docs.append(d)
+        labels.append("refused-" + label)
+        info["members"].append(len(docs) - 1)
+
+    def some(**o):
+        """a few more shared text components around the refused combination"""
+        if rng.random() < 0.4:
+            o.setdefault("title", rng.choice([tx["title"]] + base.get("RTFTitle", [])))
+        if rng.random() < 0.3:
+            o.setdefault("page", rng.choice(tx["pages"]))
+        if rng.random() < 0.3:
+            o.setdefault("page_footer", tx["page_footer"])
+        return o
+
+    def by_kw(key):
+        return [i for i in base.get("RTFBody", []) if comps[i]["kw"].get(key)]
+
+    member("figure+table-footnote", "figure", [], figure=fig, footnote=tx["footnotes"][0])
+    if base_tab_fn:
+        member("figure+table-footnote-of-the-base-pool", "figure", [], figure=fig, footnote=rng.choice(base_tab_fn))
+    member("figure+table-source", "figure", [], figure=fig, source=tx["sources"][0],
+           **({"footnote": rng.choice([tx["footnotes"][1]] + base_par_fn)} if rng.random() < 0.5 else {}))
+    if base_tab_src:
+        member("figure+table-source-of-the-base-pool", "figure", [], figure=fig, source=rng.choice(base_tab_src))
+    member("frame+figure", "single", [(fX, A)], figure=fig, **some(footnote=rng.choice(tx["footnotes"])))
+    member("neither-frame-nor-figure", "figure", [], **some(title=tx["title"], footnote=rng.choice(tx["footnotes"])))
+    member("more-bodies-than-frames", "multi", [(fX, A), (fY, B)], body_arg=[A, B, C], **some())
+    member("fewer-bodies-than-frames", "multi", [(fX, A), (fY, B)], body_arg=[rng.choice([A, B])], **some())
+    member("bare-body-for-frame-list", "multi", [(fX, A), (fY, B)], body_arg=dict(single=rng.choice([A, B])), **some())
+    member("nested-headers-other-length", "multi", [(fX, A), (fY, B)],
+           dict(nested=rng.choice([[[sh["headers"]["explicit"]]], [[sh["headers"]["widthless"]], [None], [sh["headers"]["textless"]]]])),
+           **some())
+    for key in ("page_by", "group_by", "subline_by"):
+        if by_kw(key):
+            member(key + "-column-not-in-frame", "single", [(fNoG, rng.choice(by_kw(key)))], **some())
+    comps.append(dict(cls="RTFBody", kw=dict(group_by=["g"], page_by=["g"])))
+    member("group_by-on-column-removed-by-page_by", "single", [(fX, len(comps) - 1)],
+           **some(footnote=rng.choice(tx["footnotes"])))
+    pool["refused"] = info
+    return info
+
+
+def _all_comp_ids(dd):
+    ids = list(doc_comp_ids(dd))
+    ba = dd.get("body_arg")
+    if ba is not None:
+        ids += [ba["single"]] if isinstance(ba, dict) else list(ba)
+    return ids
+
+
+def gen_refused_history(rng, pool, labels, j):
+    """the j-th refused document is attempted around the operations on a live document that shares one of its objects
+    (a text component rather than the figure, mostly): encode – attempt – encode again, construct – attempt – encode,
+    attempt – construct – encode; now and then a second attempt and a failing encode in between"""
+    info, docs, comps = pool["refused"], pool["docs"], pool["components"]
+    fam = info["members"]
+    r = fam[j % len(fam)]
+    nd = pool.get("n_base", len(docs))
+    cand = list(range(nd)) + list(pool["sharefamily"]["members"])
+    failing = [i for i, l in enumerate(labels[:nd]) if "fail" in l or "IndexError" in l]
+    users = {}
+    for d in cand:
+        for c in set(doc_comp_ids(docs[d])):
+            users.setdefault(c, []).append(d)
+    shared = [c for c in dict.fromkeys(_all_comp_ids(docs[r])) if users.get(c)]
+    text = [c for c in shared if comps[c]["cls"] not in ("RTFFigure", "RTFBody", "RTFColumnHeader")]
+    bodies = [c for c in shared if comps[c]["cls"] == "RTFBody"]
+    about_body = "column" in labels[r] or "bodies" in labels[r] or "bare-body" in labels[r]
+    if shared:
+        # the object the refusal is about, mostly: the body for a refused column / body list, a text component otherwise
+        if about_body and bodies and rng.random() < 0.7:
+            c = rng.choice(bodies)
+        else:
+            c = rng.choice(text) if text and rng.random() < 0.8 else rng.choice(shared)
+        fam_users = [d for d in users[c] if d >= nd]
+        target = rng.choice(fam_users) if fam_users and rng.random() < 0.7 else rng.choice(users[c])
+        via = comps[c]["cls"]
+    else:
+        target, via = rng.choice(pool["sharefamily"]["members"]), "nothing"
+    mode = rng.choice(REFUSED_MODES + (["attempt-then-construct"] * 2 if about_body else []))
+    ops, kinds = [], []
+
+    def attempts():
+        ops.append(["attempt", r])
+        kinds.append("attempt:" + labels[r])
+        if rng.random() < 0.4:
+            r2 = rng.choice(fam)
+            ops.append(["attempt", r2])
+            kinds.append("attempt:" + labels[r2])
+
+    reuse = None
+    if rng.random() < 0.2 and failing:
+        ops += [["construct", 1, rng.choice(failing)], ["encode", 1]]
+        kinds.append("fail")
+    if mode == "encode-attempt-encode":
+        ops += [["construct", 0, target], ["encode", 0]]
+        attempts()
+        reuse = 0
+    elif mode == "construct-attempt-encode":
+        ops += [["construct", 0, target]]
+        attempts()
+        reuse = 0
+    else:
+        attempts()
+    hist = dict(ops=ops, target=target, reuse=reuse, target_twice=rng.random() < 0.3, refused_mode=mode, refused_via=via)
+    return hist, ("refused", tuple(kinds), labels[target], mode)
+
+
 # ------------------------------------------------------------------ figure-files family (what an encode reads from disk)
 
-FIG_NAMES = ["fig.png", "plot.png", "km_curve.PNG", "logo.jpg"]
+FIG_NAMES =["fig.png", "plot.png", "km_curve.PNG", "logo.jpg"]
 FIG_NDIRS = 3
 REL_FORMS = ["str", "str", "Path", "dot"]
 ABS_FORMS = ["str", "str", "Path", "dotdot", "sibling"]
@@ -1189,7 +1649,18 @@ def corpus(names):
              # round-8 seeded change (heading rows in the order of set(page_by) - set(subline_by)): a listing by site
              # with a two-level page_by hierarchy; no history needed, the interpreters differ
              dict(cls="RTFBody", kw=dict(subline_by=["site"], page_by=["region", "arm"])),   # 12
-             dict(cls="RTFTitle", kw=dict(text="Listing by site, region and arm"))]          # 13
+             dict(cls="RTFTitle", kw=dict(text="Listing by site, region and arm")),          # 13
+             # round-11 seeded change (a per-section flag written into the section body): a body with explicit
+             # full-length widths — the documents hold the caller's object itself — as the first of two sections and as
+             # the body of a single-section document; a header with explicit widths likewise
+             dict(cls="RTFBody", kw=dict(col_rel_width=[2, 1, 1])),                          # 14
+             dict(cls="RTFBody", kw=dict(col_rel_width=[1, 1, 1])),                          # 15
+             dict(cls="RTFColumnHeader", kw=dict(text=["G", "S", "C"], col_rel_width=[2, 1, 1])),   # 16
+             # round-12 seeded change (a refusal of the constructor turned into an assignment into the caller's object): a
+             # footnote with the default as_table=True under a table document, and handed to a figure document
+             dict(cls="RTFFootnote", kw=dict(text="N = number of subjects")),                # 17
+             dict(cls="RTFFigure", kw=dict(files=[dict(name="c.png", hex=_png(2, 2, (0, 128, 0)).hex())],
+                                           fig_width=2, fig_height=2))]                      # 18
     f3 = dict(cols=["g", "s", "c0"], rows=[["A", "x", "1"], ["B", "x", "2"]])
     f4 = dict(cols=["g", "s", "c0", "c1"], rows=[["A", "x", "1", "2"], ["A", "x", "3", "4"]])
     fbad = dict(cols=["g", "s", "c0"], rows=[["A", "x", "1"], ["B", "x", "2"], ["A", "x", "3"]])
@@ -1215,10 +1686,15 @@ def corpus(names):
             d("single", [[0, 6]], dict(flat=[4])),       # 6: shared header, widths [3,1,1]
             d("single", [[4, 9]], page=10),              # 7: 9.7 pt, cells at the wrap edge, 10 rows per page
             d("single", [[5, 11]]),                      # 8: 9.5 pt
-            d("single", [[6, 12]], title=13)]            # 9: subline_by + two page_by columns
+            d("single", [[6, 12]], title=13),            # 9: subline_by + two page_by columns
+            d("single", [[0, 14]], dict(flat=[16])),                      # 10: explicit-width body and header
+            d("multi", [[0, 14], [0, 15]], dict(nested=[[16], [None]])),  # 11: the same objects in the first of two sections
+            d("single", [[0, 8]], footnote=17),                           # 12: table document, footnote closes the table
+            d("figure", [], footnote=17, figure=18)]                      # 13: refused (figure + table-rendered footnote)
     pool = dict(components=comps, frames=[f3, f4, fbad, f5, fcom, fsite, flist], docs=docs)
     labels = ["shared-3col", "shared-4col", "fail-blue", "multi", "multi-2-5", "hdr-131", "hdr-311", "edge-9.7pt", "plain-9.5pt",
-              "listing-subline+page_by2"]
+              "listing-subline+page_by2", "explicit-body-single", "explicit-body-first-of-two", "table-footnote",
+              "refused-figure+table-footnote"]
     hs = [dict(ops=[["construct", 0, 0]], target=1, reuse=None, target_twice=False),
           dict(ops=[["construct", 0, 1]], target=0, reuse=None, target_twice=True),
           dict(ops=[["construct", 0, 2], ["encode", 0]], target=3, reuse=None, target_twice=False),
@@ -1231,7 +1707,13 @@ def corpus(names):
           dict(ops=[["measure", dict(text="x", font=1, font_size=9.5, unit="px", dpi=96.0)]], target=7, reuse=None,
                target_twice=False),
           dict(ops=[], target=9, reuse=None, target_twice=True),
-          dict(ops=[["construct", 0, 9], ["encode", 0]], target=9, reuse=0, target_twice=False)]
+          dict(ops=[["construct", 0, 9], ["encode", 0]], target=9, reuse=0, target_twice=False),
+          dict(ops=[["construct", 0, 11], ["encode", 0]], target=10, reuse=None, target_twice=False),
+          dict(ops=[["construct", 0, 10], ["construct", 1, 11], ["encode", 0], ["encode", 1]], target=10, reuse=0,
+               target_twice=True),
+          dict(ops=[["construct", 0, 10], ["encode", 0]], target=11, reuse=None, target_twice=True),
+          dict(ops=[["construct", 0, 12], ["encode", 0], ["attempt", 13]], target=12, reuse=0, target_twice=False),
+          dict(ops=[["attempt", 13]], target=12, reuse=None, target_twice=True)]
     return pool, labels, hs
 
 
@@ -1276,7 +1758,9 @@ def model_request(pool, hist, ob, hashseed=0, ref_seeds=()):
             ops.append(dict(op="construct", n=op[1], ctor=ctor_of(pool["docs"][op[2]])))
         elif op[0] == "lookup":
             ops.append(dict(op="lookup", c=op[1]))
-        elif op[0] == "measure":
+        elif op[0] in ("measure", "attempt"):
+            # a refused `RTFDocument(...)` raises in the validator before anything is stored: no document, no state —
+            # a step that leaves the world alone (that the library does refuse is checked in `judge`)
             ops.append(dict(op="measure"))
         else:
             ops.append(dict(op=op[0], n=op[1]))
@@ -1510,6 +1994,11 @@ def judge(res, case, pool, hist, ob, fresh, mdl, orc, others=(), fm=None):
         elif k == "lookup":
             if o["idx"] != "unavailable" and mo.get("looked") != o["idx"]:
                 dis.append(f"colour lookup outside an encode: model {mo.get('looked')} vs implementation {o['idx']}")
+        elif k == "attempt":
+            if o["ok"]:
+                did = hist["ops"][mi][1]
+                dis.append(f"RTFDocument(...) accepted a combination it refuses ({(case.get('labels') or {did: did})[did]}): "
+                           f"model: ValueError raised by the validator, nothing constructed, no object touched")
         elif k == "measure":
             # the model: no state behind a measurement, i.e. the stateless Pillow function of the call's arguments
             q = hist["ops"][mi][1]          # one observation per operation, in order
@@ -1712,12 +2201,21 @@ def execute(res, groups, fresh_cache, others_cache=None, ref_seeds=()):
                 res.count("prior_measure:" + ("value" if "val" in o else o["cls"]))
             elif o["kind"] == "fs":
                 res.count("figfs_event:" + o["ev"])
+            elif o["kind"] == "attempt":
+                res.count("prior_attempt:" + ("constructed" if o["ok"] else "refused:" + o["cls"]))
         t = ob["target"]
         res.count("target_outcome:" + ("construct-error" if "construct" in t else kind_of_impl(t["out"])))
         if h.get("reuse") is not None:
             res.count("target_reuses_live_document")
         if fm is not None:
             count_files(res, p, h, fm)
+        if h.get("share_mode") is not None and p.get("sharefamily"):
+            count_share(res, p, h)
+        if h.get("refused_mode") is not None:
+            res.count("refused_history:" + h["refused_mode"] + ":shares-" + h.get("refused_via", "?"))
+            for op in h["ops"]:
+                if op[0] == "attempt":
+                    res.count("attempted:" + labels[op[1]])
         judge(res, case, p, h, ob, fresh_cache[key], mdl, orc, others, fm)
 
 
@@ -1750,6 +2248,9 @@ def run(res: common.Result, build) -> int:
     per_round = 25 if quick else 100
     per_measured = 18 if quick else 36
     per_figfs = 14 if quick else 24
+    per_share = 16 if quick else 32
+    per_refused = 8 if quick else 15
+    pairs = share_pairs(res.seed)
     fresh_cache = {}
     work = []
     cpool, clabels, chists = corpus(names)
@@ -1761,6 +2262,7 @@ def run(res: common.Result, build) -> int:
     for r in range(rounds):
         pool, labels = gen_round(sub_rng(res.seed, "c14pool", r), names)
         pool["n_base"] = len(pool["docs"])
+        pool["n_base_comps"] = len(pool["components"])
         info = gen_measured(sub_rng(res.seed, "c14measured", r), pool, labels)
         res.count("measured_family_frames", len(info["texts"]))
         res.count("measured_family_frames_break_moves_under_0.8pct_drift", info["sensitive"])
@@ -1787,6 +2289,21 @@ def run(res: common.Result, build) -> int:
         for k in range(per_figfs):
             h, nt = gen_figfs_history(sub_rng(res.seed, "c14fhist", r, k), pool, labels, r * per_figfs + k + 7 * res.seed)
             res.count("figfs_history_generated:" + h["figfs_mode"])
+            work.append((r, pool, labels, h, nt))
+        # shared-sections family (appended after the figure-files family): three body objects and three header objects
+        # in single- and multi-section documents at every section position; the run walks through all ordered pairs of
+        # its document roles (earlier document, target)
+        sinfo = gen_sharefamily(sub_rng(res.seed, "c14share", r), pool, labels, names, r + res.seed)
+        res.count("share_family_documents", len(sinfo["members"]))
+        for k in range(per_share):
+            pair = pairs[(r * per_share + k) % len(pairs)]
+            h, nt = gen_share_history(sub_rng(res.seed, "c14shist", r, k), pool, labels, pair)
+            work.append((r, pool, labels, h, nt))
+        # refused constructions (appended last): attempts the validator rejects, on objects live documents use
+        rinfo = gen_refused(sub_rng(res.seed, "c14refused", r), pool, labels)
+        res.count("refused_family_documents", len(rinfo["members"]))
+        for k in range(per_refused):
+            h, nt = gen_refused_history(sub_rng(res.seed, "c14rhist", r, k), pool, labels, r * per_refused + k + 5 * res.seed)
             work.append((r, pool, labels, h, nt))
     seeds = [1 + rng.randrange(4_000_000_000)]
     # the histories run in interpreters with two different hash seeds (alternating), every reference is computed
@@ -1850,7 +2367,12 @@ def run(res: common.Result, build) -> int:
                     "C14files_purity, C14files_reads_current), iff the key of a store of file contents determines the content "
                     "(C14files_pure_iff); the path as spelled does not, with no file changing (C14files_spelling_cwd_witness), "
                     "the resolved path does exactly while no file changes (C14files_resolved_pure_readonly, "
-                    "C14files_resolved_rewrite_witness).")
+                    "C14files_resolved_rewrite_witness). C14share_*: a document holds the caller's body object itself iff "
+                    "the body has explicit widths that need no broadcasting (C14share_body_by_reference_iff; otherwise a "
+                    "copy no history can reach, C14share_body_copy_isolated), a header iff it has widths of its own "
+                    "(C14share_header_by_reference_iff); what is read through such a reference after any history is the "
+                    "caller's object as created (C14share_reference_reads_callers_object); purity for constructor calls "
+                    "with any number of sections, any of them references (C14share_purity_any_position).")
 
 
 def replay(payload) -> int:
